@@ -106,7 +106,12 @@ class Report:
         for o in knownhits:
             print("KNOWN-FINDING: property=%s %s at %s (%s) -- %s" % (
                 self.prop, o.what, o.loc, o.func, known_keys[o.key].get("what", "")))
+        printed = set()
         for o in viol:
+            # the same site seen through several template instantiations is reported once
+            if (o.key, o.loc, o.what) in printed:
+                continue
+            printed.add((o.key, o.loc, o.what))
             safe = re.sub(r"[^A-Za-z0-9_.-]+", "_", o.key)[:150]
             path = os.path.join(EVIDENCE_DIR, "violations", "%s-%s.json" % (self.prop, safe))
             with open(path, "w") as f:
